@@ -118,6 +118,9 @@ def build_item(it):
         vs.append({"attrs": [], "ident": "Vc", "fields": ("unit",)})
         if kind == "gtagged":
             vs.append({"attrs": [], "ident": "Vd", "fields": ("unnamed", [field([], None, t_path("T"))])})
+            # a struct variant that mentions the parameter only inside maps (TypeScript refuses a parameter as a key: value positions)
+            vs.append({"attrs": [], "ident": "Vm", "fields": ("named", [field([], "m", t_path("HashMap", [t_path("String"), t_path("T")])),
+                                                                        field([], "k", t_path("Vec", [t_path("HashMap", [t_path("String"), t_path("Vec", [t_path("T")])])]))])})
         return {"kind": "enum", "attrs": attrs, "ident": name, "generics": gens, "variants": vs}
     if kind in ("alias", "galias"):
         ty = uses[0] if uses else (t_path("Vec", [t_path("T")]) if kind == "galias" else t_path("String"))
@@ -269,9 +272,10 @@ def predict(items, lang, pfx):
             if lang != "typescript":
                 # TsV.C09.innerDefName = innerRefs: `<original>VaInner` in Go, `<renamed>VaInner` elsewhere (Kotlin / Scala
                 # referred to `<original>VaInner` before 3d3e1e7)
-                inner = pfx + (it["name"] if lang == "go" else ren(it)) + "VaInner"
-                defs.add(inner)
-                refs.add(inner)
+                for vn in ("Va", "Vm") if it["kind"] == "gtagged" else ("Va",):
+                    inner = pfx + (it["name"] if lang == "go" else ren(it)) + vn + "Inner"
+                    defs.add(inner)
+                    refs.add(inner)
             if lang in ("kotlin", "scala"):
                 refs.add(pfx + ren(it))      # TsV.C09.parentRefs: the parent class of the cases (`<original>` before 3d3e1e7)
         if it["kind"] == "unit" and lang == "scala":
